@@ -4,6 +4,7 @@ private refusal per step), nearest-table walk, direct vs cached presence predica
 from __future__ import annotations
 
 import ast
+import re
 
 from ..astutil import call_attr, calls_in, guard_facts, unparse, walk_local, text_facts
 from ..cfg import CFG
@@ -219,10 +220,32 @@ def check_direct_vs_cached(idx: Index, rep: Report) -> None:
         r.fail("cached-key", Finding("C29.R3", lk.fq, "cached-key", "cached lookup does not key by the plain symbol name", lk.loc))
 
 
+def check_symbol_predicate(idx: Index, rep: Report) -> None:
+    """Every resolver decides 'this operation is the symbol called N' through the symbol interface
+    (SymbolOpInterface.get_sym_attr_name / get_name_if_symbol).  Matching on a raw `sym_name` attribute also selects
+    operations that merely carry such an attribute without being symbols (symref.declare, csl.func, fsm.instance ...)."""
+    r = rep.rule("C29.R4", "the three resolvers match an operation against a symbol name only through SymbolOpInterface (never on a raw sym_name attribute)", floor=2)
+    sites = [(TR, "SymbolTable.lookup_symbol"), (UT, "_lookup_symbol_in_direct_children"), (UT, "SymbolTable.__init__")]
+    for mod, q in sites:
+        f = idx.func(mod, q)
+        t = unparse(f.raw_node)
+        via_iface = bool(re.search(r"get_trait\(SymbolOpInterface\)|has_trait\(SymbolOpInterface\)|get_name_if_symbol\(|get_sym_attr_name\(", t))
+        raw = [n for n in ast.walk(f.raw_node) if (isinstance(n, ast.Call) and call_attr(n) in ("get_attr_or_prop", "get") and n.args and isinstance(n.args[0], ast.Constant) and n.args[0].value == "sym_name") or (isinstance(n, ast.Subscript) and isinstance(n.slice, ast.Constant) and n.slice.value == "sym_name")]
+        # `verify` style duplicate checks read the raw attribute; only comparisons against the looked-up name count
+        raw_match = [n for n in raw if any(isinstance(c_, ast.Compare) and any(y is n for y in ast.walk(c_)) for c_ in ast.walk(f.raw_node))]
+        if raw_match and not via_iface:
+            r.fail(f.fq, Finding("C29.R4", f.fq, "raw-sym-name-match", f"`{unparse(raw_match[0])}` is compared with the looked-up name without the SymbolOpInterface test: an operation that only carries a `sym_name` attribute but is not a symbol is returned, and this resolver disagrees with the other two on the same module", f"{f.module.relpath}:{raw_match[0].lineno}"))
+        elif via_iface:
+            r.ok(f.fq, f"{f.loc} symbol name obtained through the symbol interface")
+        else:
+            raise AnalysisError(f"{f.fq}: how an operation is matched against the symbol name was not understood")
+
+
 def check(idx: Index, rep: Report, tier: str) -> str:
     rep.run(check_nested, idx, rep)
     rep.run(check_nearest, idx, rep)
     rep.run(check_direct_vs_cached, idx, rep)
+    rep.run(check_symbol_predicate, idx, rep)
     return (
         "Sibling-agreement rules over the three implementations of symbol resolution (utils.symbol_table direct and cached "
         "forms sharing _lookup_symbol_ref_in, and traits.SymbolTable.lookup_symbol): per-step table check and private "
